@@ -70,6 +70,9 @@ Lemma Forall2_impl' {A B} (R1 R2 : A -> B -> Prop) l1 l2 :
   (forall a b, R1 a b -> R2 a b) -> Forall2 R1 l1 l2 -> Forall2 R2 l1 l2.
 Proof. intros H F. induction F; constructor; auto. Qed.
 
+Lemma Forall2_len {A B} (R : A -> B -> Prop) l1 l2 : Forall2 R l1 l2 -> length l1 = length l2.
+Proof. intros F. induction F; cbn; [reflexivity|f_equal; assumption]. Qed.
+
 Lemma nth_error_combine {A B} : forall (l1 : list A) (l2 : list B) i,
   nth_error (combine l1 l2) i = match nth_error l1 i, nth_error l2 i with
                                 | Some a, Some b => Some (a, b) | _, _ => None end.
@@ -132,6 +135,42 @@ Section Open.
   Qed.
 End Open.
 
+(* ------------------------------------------------------------------ the domain of the footer *)
+
+(** What the footer encoder and parser have to agree on: the metadata the writer builds (one chunk per schema
+    column, in order) with every number inside the Thrift field that carries it and names that are C strings. *)
+Definition name_ok (n : list N) : Prop := Forall (fun b => 0 < b < 256) n /\ len n < 2 ^ 31.
+Definition col_small (c : column) : Prop := name_ok (c_name c) /\ c_tlen c < 2 ^ 31.
+Definition chunk_small (cm : chunk_meta) : Prop :=
+  (- 2 ^ 31 <= cm_codec cm < 2 ^ 31)%Z /\ cm_file_offset cm < 2 ^ 63 /\ cm_num_values cm < 2 ^ 63 /\
+  cm_total_compressed cm < 2 ^ 63 /\ cm_total_uncompressed cm < 2 ^ 63.
+Definition group_small (g : rg_meta) : Prop :=
+  Forall chunk_small (rg_chunks g) /\ rg_num_rows g < 2 ^ 63 /\ rg_total_byte_size g < 2 ^ 63 /\
+  rg_file_offset g < 2 ^ 63 /\ rg_total_compressed g < 2 ^ 63 /\
+  match rg_ordinal g with Some n => n <= 32767 | None => True end.
+Definition meta_small (m : file_meta) : Prop :=
+  fm_version m < 2 ^ 31 /\ Forall col_small (fm_schema m) /\
+  len (fm_schema m) + 1 <= MAX_SCHEMA_ELEMENTS /\ len (fm_schema m) <= MAX_COLUMNS_PER_RG /\
+  fm_num_rows m < 2 ^ 63 /\ Forall group_small (fm_groups m) /\ len (fm_groups m) <= MAX_ROW_GROUPS /\
+  name_ok (fm_created_by m).
+Definition meta_shape (m : file_meta) : Prop :=
+  Forall (fun g => map cm_col (rg_chunks g) = fm_schema m) (fm_groups m).
+Definition footer_dom (m : file_meta) : Prop := meta_shape m /\ meta_small m.
+
+(** new_row_group calls of a history: each can start one more row group *)
+Fixpoint newrgs (ops : list wop) : nat :=
+  match ops with
+  | [] => O
+  | WNewRowGroup :: t => S (newrgs t)
+  | _ :: t => newrgs t
+  end.
+
+Lemma map_fst_combine {A B} : forall (a : list A) (b : list B), length a = length b -> map fst (combine a b) = a.
+Proof.
+  induction a as [|x a IH]; intros b H; [reflexivity|]. destruct b as [|y b]; [discriminate|].
+  cbn [combine map fst]. f_equal. apply IH. cbn in H. lia.
+Qed.
+
 (* ------------------------------------------------------------------ the file writer *)
 
 Section File.
@@ -150,10 +189,12 @@ Section File.
   Hypothesis codec_uncompressed : Z.eqb codec E_CARQUET_COMPRESSION_UNCOMPRESSED = true -> forall b, compress b = b.
   Hypothesis codec_roundtrip : Z.eqb codec E_CARQUET_COMPRESSION_UNCOMPRESSED = false ->
     forall b, is_bytes b -> len b < 2 ^ 31 -> decompress (compress b) (len b) = Ok b.
-  Hypothesis header_roundtrip : forall h rest, parse_header (header h ++ rest) = Ok (core_of h, len (header h)).
-  Hypothesis header_small : forall h, len (header h) <= 256.
-  Hypothesis header_nonempty : forall h, 0 < len (header h).
-  Hypothesis footer_roundtrip : forall m, parse_footer (footer m) = Ok m.
+  Hypothesis compress_bytes : forall b, is_bytes b -> len b < 2 ^ 31 -> is_bytes (compress b).
+  Hypothesis header_roundtrip : forall h rest, hdr_ok h ->
+    parse_header (header h ++ rest) = Ok (core_of h, len (header h)).
+  Hypothesis header_small : forall h, hdr_ok h -> len (header h) <= 256.
+  Hypothesis header_nonempty : forall h, hdr_ok h -> 0 < len (header h).
+  Hypothesis footer_roundtrip : forall m, footer_dom m -> parse_footer (footer m) = Ok m.
   Hypothesis sch_ok : forallb column_ok sch = true.
 
   Notation read_chunk := (ReadAllModel.read_chunk codec decompress parse_header verify).
@@ -167,7 +208,8 @@ Section File.
   Lemma chunk_at_app out more cm c rows : chunk_at out cm c rows -> chunk_at (out ++ more) cm c rows.
   Proof. intros [T R]. split; [exact T|]. intros m. rewrite <- app_assoc. apply R. Qed.
 
-  Definition small_chunk (cm : chunk_meta) : Prop := cm_num_values cm < 2 ^ 31 /\ cm_total_uncompressed cm < 2 ^ 31.
+  Definition small_chunk (cm : chunk_meta) : Prop :=
+    cm_num_values cm < 2 ^ 31 /\ cm_total_uncompressed cm < 2 ^ 31 /\ cm_total_compressed cm < 2 ^ 31.
 
   (** a column writer of the current row group holds exactly [rows] *)
   Definition ColOK (cwr : cw) (cr : column * list row) : Prop :=
@@ -178,6 +220,7 @@ Section File.
     forall data metas tot, finalize_columns compress header codec cws (len pre) = (data, metas, tot) ->
     length metas = length crs /\
     data = concat (map (fun cwr => w_buf (cw_finalize compress header cwr)) cws) /\
+    map cm_col metas = map fst crs /\
     (Forall small_chunk metas ->
      Forall2 (fun cm cr => chunk_at (pre ++ data) cm (fst cr) (snd cr)) metas crs).
   Proof.
@@ -189,13 +232,18 @@ Section File.
       replace (len pre + len (w_buf f)) with (len (pre ++ w_buf f)) in E by apply len_app'.
       destruct (finalize_columns compress header codec cws (len (pre ++ w_buf f))) as [[data' metas'] tot'] eqn:E'.
       inversion E; subst data metas tot. clear E.
-      destruct (IH (pre ++ w_buf f) Hoks data' metas' tot' E') as (Hl & Hd & Hs).
-      split; [cbn [length]; lia|]. split; [cbn [map concat]; rewrite Hd; reflexivity|].
-      intros Hsm. inversion Hsm as [|? ? [Bv Bu] Hsm']; subst. cbn [cm_num_values cm_total_uncompressed] in Bv, Bu.
+      destruct (IH (pre ++ w_buf f) Hoks data' metas' tot' E') as (Hl & Hd & Hm & Hs).
       destruct Hc as (ps & rss & pend & I & R).
+      assert (Ecol0 : p_col (w_page f) = fst cr).
+      { destruct (cw_finalize_inv compress header (fst cr) cwr ps rss pend I) as (ps' & rss' & I' & _).
+        exact (pi_col _ _ _ (ci_page _ _ _ _ _ _ _ I')). }
+      split; [cbn [length]; lia|]. split; [cbn [map concat]; rewrite Hd; reflexivity|].
+      split; [cbn [map cm_col]; rewrite Ecol0, Hm; reflexivity|].
+      intros Hsm. inversion Hsm as [|? ? (Bv & Bu & Bc) Hsm']; subst.
+      cbn [cm_num_values cm_total_uncompressed cm_total_compressed] in Bv, Bu, Bc.
       destruct (chunk_roundtrip_inv codec compress decompress header parse_header verify
-                  codec_uncompressed codec_roundtrip header_roundtrip header_small header_nonempty
-                  (fst cr) cwr ps rss pend Hcok I Bv Bu) as (Ecol & Ev & Rd).
+                  codec_uncompressed codec_roundtrip compress_bytes header_roundtrip header_small header_nonempty
+                  (fst cr) cwr ps rss pend Hcok I Bv Bu Bc) as (Ecol & Ev & Rd).
       fold f in Ecol, Ev, Rd.
       constructor.
       + split; [cbn [cm_col]; rewrite Ecol; reflexivity|].
@@ -212,7 +260,7 @@ Section File.
 
   (** a finished row group of the file against the rows it must hold *)
   Definition GroupOK (out : list N) (g : rg_meta) (rg : rowgroup) : Prop :=
-    rg_num_rows g = N.of_nat (group_rows rg) /\ length rg = length sch /\
+    rg_num_rows g = N.of_nat (group_rows rg) /\ length rg = length sch /\ map cm_col (rg_chunks g) = sch /\
     (Forall small_chunk (rg_chunks g) ->
      Forall2 (fun cm cr => chunk_at out cm (fst cr) (snd cr)) (rg_chunks g) (combine sch rg)).
 
@@ -266,14 +314,19 @@ Section File.
 
   (** carquet_writer_write_batch on a consistent call *)
   Lemma write_batch_inv w allg cur touched col c b : FInv w allg cur touched ->
+    N.of_nat (length allg) < MAX_ROW_GROUPS ->
     nth_error sch col = Some c -> batch_ok c b = true ->
     exists w', fw_write_batch compress header w col b = Ok (w', OK)
                /\ FInv w' allg (app_nth col (rows_of_batch c b) cur) true.
   Proof.
-    intros I Hc Hb. unfold fw_write_batch.
+    intros I Hlim Hc Hb. unfold fw_write_batch.
     assert (Hlt : (col < length sch)%nat) by (apply nth_error_Some; rewrite Hc; discriminate).
     rewrite (fi_sch _ _ _ _ I).
     assert (E0 : Nat.leb (length sch) col = false) by (apply Nat.leb_gt; exact Hlt). rewrite E0.
+    assert (Elim : match f_cur w with None => MAX_ROW_GROUPS <=? len (f_groups w) | Some _ => false end = false).
+    { destruct (f_cur w); [reflexivity|]. apply N.leb_gt. unfold len.
+      rewrite (Forall2_len _ _ _ (fi_groups _ _ _ _ I)). exact Hlim. }
+    rewrite Elim.
     destruct (ensure_header_inv w allg cur touched I) as [I1 Hh].
     set (w0 := ensure_header w) in *.
     (* the row group exists after ensure_row_group *)
@@ -338,14 +391,16 @@ Section File.
       assert (Hok : Forall (fun cr : column * list row => column_ok (fst cr) = true) (combine sch cur)).
       { apply Forall_forall. intros [c r] Hin. apply in_combine_l in Hin. cbn [fst].
         rewrite forallb_forall in sch_ok. apply sch_ok, Hin. }
-      destruct (finalize_columns_spec cws (combine sch cur) (f_out w) Fc Hok data metas tot Ef) as (Hl & Hdata & Hs).
+      destruct (finalize_columns_spec cws (combine sch cur) (f_out w) Fc Hok data metas tot Ef) as (Hl & Hdata & Hcols & Hs).
+      rewrite map_fst_combine in Hcols by (symmetry; apply (fi_curlen _ _ _ _ I)).
       constructor; cbn [f_schema f_opts f_groups f_total_rows f_cur f_cur_rows f_header_written f_out f_offset].
       + apply (fi_sch _ _ _ _ I).
       + reflexivity.
       + apply Forall2_app.
-        * eapply Forall2_impl'; [|apply (fi_groups _ _ _ _ I)]. intros g rg (G1 & G2 & G3). repeat split; try assumption.
+        * eapply Forall2_impl'; [|apply (fi_groups _ _ _ _ I)]. intros g rg (G1 & G2 & G2' & G3). repeat split; try assumption.
           intros Hsm. specialize (G3 Hsm). eapply Forall2_impl'; [|exact G3]. intros cm cr. apply chunk_at_app.
-        * constructor; [|constructor]. repeat split; cbn [rg_num_rows rg_chunks]; [exact R|apply (fi_curlen _ _ _ _ I)|exact Hs].
+        * constructor; [|constructor]. repeat split; cbn [rg_num_rows rg_chunks];
+            [exact R|apply (fi_curlen _ _ _ _ I)|exact Hcols|exact Hs].
       + rewrite (fi_rows _ _ _ _ I), R, sum_rows_snoc. lia.
       + unfold empty_group. apply map_length.
       + split; reflexivity.
@@ -375,7 +430,7 @@ Section File.
     read_groups codec decompress parse_header verify (out ++ more) sch gs
     = Ok (map (fun rg => (N.of_nat (group_rows rg), rg)) allg).
   Proof.
-    intros gs allg F. induction F as [|g rg gs allg (G1 & G2 & G3) F IH]; intros Hs; [reflexivity|].
+    intros gs allg F. induction F as [|g rg gs allg (G1 & G2 & _ & G3) F IH]; intros Hs; [reflexivity|].
     inversion Hs as [|? ? Hg Hs']; subst. cbn [read_groups map].
     rewrite (read_columns_spec out more sch (rg_chunks g) rg G2 (G3 Hg)). rewrite (IH Hs'), G1. reflexivity.
   Qed.
@@ -403,6 +458,7 @@ Section File.
 
   (** the closed file *)
   Definition Closed (w : fw) (allg : list rowgroup) : Prop :=
+    f_schema w = sch /\ f_opts w = opts /\
     f_total_rows w = N.of_nat (sum_rows allg) /\
     Forall2 (GroupOK (f_out w)) (f_groups w) allg /\
     exists data, let m := mkfm footer_version sch (N.of_nat (sum_rows allg)) (f_groups w) created_by in
@@ -428,8 +484,10 @@ Section File.
     set (ag := if touched then allg ++ [cur] else allg) in *.
     assert (Hh1 : f_header_written w1 = true) by (unfold w1; rewrite flush_keeps_header; exact Hh).
     pose proof (fi_hdr _ _ _ _ I2) as Hd. rewrite Hh1 in Hd. destruct Hd as [_ [data Eo]].
-    unfold Closed. cbn [f_out f_groups f_total_rows]. split; [apply (fi_rows _ _ _ _ I2)|]. split.
-    - eapply Forall2_impl'; [|apply (fi_groups _ _ _ _ I2)]. intros g rg (G1 & G2 & G3). repeat split; try assumption.
+    unfold Closed. cbn [f_out f_groups f_total_rows f_schema f_opts].
+    split; [apply (fi_sch _ _ _ _ I2)|]. split; [apply (fi_opts _ _ _ _ I2)|].
+    split; [apply (fi_rows _ _ _ _ I2)|]. split.
+    - eapply Forall2_impl'; [|apply (fi_groups _ _ _ _ I2)]. intros g rg (G1 & G2 & G2' & G3). repeat split; try assumption.
       intros Hsm. specialize (G3 Hsm). eapply Forall2_impl'; [|exact G3]. intros cm cr. apply chunk_at_app.
     - exists data. cbv zeta. unfold metadata_of. rewrite (fi_sch _ _ _ _ I2), (fi_rows _ _ _ _ I2), (fi_opts _ _ _ _ I2).
       fold created_by. rewrite Eo, <- app_assoc. reflexivity.
@@ -451,30 +509,32 @@ Section File.
   (** the writer follows the denotation of the history *)
   Lemma run_ops_spec : forall ops w allg cur touched done acc gs,
     FInv w allg cur touched -> filter nonempty allg = rev done -> forallb (Z.eqb OK) acc = true ->
+    N.of_nat (length allg + S (newrgs ops)) <= MAX_ROW_GROUPS ->
     table_go sch ops done cur touched = Some gs ->
     exists sts w' allg', run_ops compress header footer w ops acc = Ok (sts, w', true)
                          /\ all_ok sts = true /\ filter nonempty allg' = gs /\ Closed w' allg'.
   Proof.
-    induction ops as [|op ops IH]; intros w allg cur touched done acc gs I Hf Ha Ht; [discriminate|].
+    induction ops as [|op ops IH]; intros w allg cur touched done acc gs I Hf Ha Hlim Ht; [discriminate|].
     destruct op as [col b| |].
     - (* write_batch *)
       cbn [table_go] in Ht. destruct (nth_error sch col) as [c|] eqn:Ec; [|discriminate].
       destruct (batch_ok c b) eqn:Eb; [|discriminate].
-      destruct (write_batch_inv w allg cur touched col c b I Ec Eb) as (w' & Ew & I').
+      cbn [newrgs] in Hlim.
+      destruct (write_batch_inv w allg cur touched col c b I ltac:(lia) Ec Eb) as (w' & Ew & I').
       cbn [run_ops]. rewrite Ew.
-      apply (IH w' allg _ true done (OK :: acc) gs I' Hf); [|exact Ht].
+      apply (IH w' allg _ true done (OK :: acc) gs I' Hf); [|exact Hlim|exact Ht].
       cbn [forallb]. rewrite Z.eqb_refl. exact Ha.
     - (* new_row_group *)
-      cbn [table_go] in Ht. cbn [run_ops]. unfold fw_new_row_group.
+      cbn [table_go] in Ht. cbn [run_ops]. unfold fw_new_row_group. cbn [newrgs] in Hlim.
       destruct (ensure_header_inv w allg cur touched I) as [I1 Hh].
       pose proof (flush_inv (ensure_header w) allg cur touched I1 Hh) as Fl.
       assert (Ha' : forallb (Z.eqb OK) (OK :: acc) = true) by (cbn [forallb]; rewrite Z.eqb_refl; exact Ha).
       destruct touched.
       + destruct (all_same_length cur) eqn:Es; [|discriminate].
         apply (IH _ (allg ++ [cur]) empty_group false (if Nat.eqb (group_rows cur) 0 then done else cur :: done)
-                  (OK :: acc) gs Fl); [apply filter_nonempty_snoc, Hf|exact Ha'|exact Ht].
+                  (OK :: acc) gs Fl); [apply filter_nonempty_snoc, Hf|exact Ha'|rewrite app_length; cbn [length]; lia|exact Ht].
       + rewrite Fl. destruct (fi_cur _ _ _ _ I1) as [_ Ec].
-        apply (IH _ allg empty_group false done (OK :: acc) gs); [rewrite <- Ec; exact I1|exact Hf|exact Ha'|exact Ht].
+        apply (IH _ allg empty_group false done (OK :: acc) gs); [rewrite <- Ec; exact I1|exact Hf|exact Ha'|lia|exact Ht].
     - (* close *)
       cbn [table_go] in Ht. cbn [run_ops].
       eexists _, _, (if touched then allg ++ [cur] else allg).
@@ -488,21 +548,28 @@ Section File.
   (** C01: a history that denotes a table - every call returns OK and reading the closed file back yields that
       table: same schema, row count, partition into non-empty row groups, null positions and values *)
   Theorem write_read_roundtrip ops t : table_of sch ops = Some t ->
+    schema_fits sch = true -> N.of_nat (S (newrgs ops)) <= MAX_ROW_GROUPS ->
     exists sts w, run_writer compress header footer sch opts ops = Ok (sts, w, true) /\ all_ok sts = true /\
       (Forall (fun g => Forall small_chunk (rg_chunks g)) (f_groups w) ->
-       len (footer (mkfm footer_version sch (f_total_rows w) (f_groups w) created_by)) < 2 ^ 32 ->
+       meta_small (metadata_of w) -> len (footer (metadata_of w)) < 2 ^ 32 ->
        exists r, read_all codec decompress parse_header parse_footer verify (f_out w) = Ok r
                  /\ drop_empty r = result_of_table t).
   Proof.
-    unfold table_of. rewrite sch_ok. intros Ht.
+    unfold table_of. rewrite sch_ok. intros Ht Hfit Hlim.
     destruct (table_go sch ops [] (map (fun _ => []) sch) false) as [gs|] eqn:Eg; [|discriminate].
     inversion Ht; subst t. clear Ht.
-    destruct (run_ops_spec ops (fw_init sch opts) [] empty_group false [] [] gs finv_init eq_refl eq_refl Eg)
-      as (sts & w & allg & Er & Ho & Hg & (Erows & Gs & data & Eo)).
-    exists sts, w. split; [exact Er|]. split; [exact Ho|].
-    intros Hsm Hft. cbv zeta in Eo. rewrite Erows in Hft.
+    destruct (run_ops_spec ops (fw_init sch opts) [] empty_group false [] [] gs finv_init eq_refl eq_refl Hlim Eg)
+      as (sts & w & allg & Er & Ho & Hg & (Esch & Eopt & Erows & Gs & data & Eo)).
+    exists sts, w. unfold run_writer. rewrite Hfit. split; [exact Er|]. split; [exact Ho|].
+    intros Hsm Hms Hft. cbv zeta in Eo.
+    assert (Em : metadata_of w = mkfm footer_version sch (N.of_nat (sum_rows allg)) (f_groups w) created_by).
+    { unfold metadata_of. rewrite Esch, Erows, Eopt. reflexivity. }
+    rewrite Em in Hft, Hms.
     set (m := mkfm footer_version sch (N.of_nat (sum_rows allg)) (f_groups w) created_by) in *.
-    unfold read_all. rewrite Eo. rewrite open_written by exact Hft. rewrite footer_roundtrip.
+    assert (Hdom : footer_dom m).
+    { split; [|exact Hms]. unfold meta_shape. cbn [fm_groups fm_schema m].
+      clear - Gs. induction Gs as [|g rg gs' allg' (_ & _ & Hc & _) _ IH]; constructor; assumption. }
+    unfold read_all. rewrite Eo. rewrite open_written by exact Hft. rewrite (footer_roundtrip m Hdom).
     cbn [fm_schema fm_groups fm_num_rows m].
     (* the groups are read from the complete file *)
     assert (Efile : magic ++ data ++ footer m ++ le32 (len (footer m)) ++ magic = f_out w ++ []) by (rewrite app_nil_r; symmetry; exact Eo).
